@@ -332,6 +332,81 @@ def check_seek(ck, prog):
         raise AnalysisBroken("C13-SEEK: expected >= 2 data-dependent decrements of file_target_pos, saw %d" % n_data)
 
 
+# (id, target, function, file, store/decl name, required (field) in the right-hand side, forbidden fields, why)
+PROVENANCE = [
+    ("append:number-base", "liblzma", "lzma_index_append", "index.c", "number_base",
+     [("index_stream", "record_count")], [("lzma_index_s", "record_count")],
+     "Block numbers restart in every Stream: a new Record group starts at the *Stream's* Record count + 1"),
+    ("list:check-offset", "xz", "parse_check_value", "list.c", "offset",
+     [(None, "compressed_file_offset"), (None, "total_size")], [(None, "unpadded_size")],
+     "the Check field ends where the Block ends (Block Padding included): offset = file offset + total_size - check size"),
+]
+
+
+def check_provenance(ck, prog, prog_xz):
+    ck.rule("C13-PROV", "derived figures are computed from the members the format defines them by")
+    for (oid, target, fn, file, name, need, forbid, why) in PROVENANCE:
+        pr = prog if target == "liblzma" else prog_xz
+        f = pr.fn(fn, file, target=target if target != "liblzma" else None)
+        ck.saw_function(f)
+        rhs = []
+        for b, i, e in f.iter_elems():
+            e_ = ex.deref(e)
+            if e_.get("k") == "decl" and e_["n"] == name and e_.get("init") is not None:
+                rhs.append(e_["init"])
+            for (l, r, op, node) in ex.writes(e):
+                ls = ex.strip(l)
+                if r is not None and ls is not None and ((ls.get("k") == "mem" and ls["f"] == name) or
+                                                         (ls.get("k") == "var" and ls["n"] == name)):
+                    rhs.append(r)
+        if not rhs:
+            raise AnalysisBroken("%s: no definition of %s" % (fn, name))
+
+        def has(r_, rec, fld):
+            return any(x.get("k") == "mem" and x["f"] == fld and (rec is None or (x.get("rec") or "").startswith(rec))
+                       for x in ex.walk(r_))
+        ok = all(any(has(r_, rc, fl) for r_ in rhs) for (rc, fl) in need) and \
+            not any(has(r_, rc, fl) for r_ in rhs for (rc, fl) in forbid)
+        ck.ob("C13-PROV", oid, ok, common.where(f), "%s: %s = %s (%s)" % (fn, name, " / ".join(ex.show(r_) for r_ in rhs), why)
+              if ok else "%s(): %s is computed as `%s`: %s" % (fn, name, " / ".join(ex.show(r_) for r_ in rhs), why),
+              key="PROV:" + oid)
+    ck.floor("C13-PROV", 2)
+
+
+def check_seek_state(ck, prog):
+    """file_info_decode() is re-entered after LZMA_SEEK_NEEDED in whatever state coder->sequence names.  A state body that
+    moves the file position bookkeeping (compound update of a coder member) must therefore advance coder->sequence
+    before it can return LZMA_SEEK_NEEDED, otherwise the update is applied a second time on re-entry."""
+    ck.rule("C13-SEEKSTATE", "after a compound update of the position bookkeeping, coder->sequence is advanced before "
+                             "any LZMA_SEEK_NEEDED return")
+    f = prog.fn("file_info_decode", "file_info.c")
+    ck.saw_function(f)
+    seekrets = [b.id for b in f.blocks.values() for e in b.elems if e is not None and ex.deref(e).get("k") == "ret"
+                and "SEEK_NEEDED" in ex.show(ex.deref(e).get("e"))]
+    if not seekrets:
+        raise AnalysisBroken("file_info_decode: no return of LZMA_SEEK_NEEDED")
+
+    def via(bb, ii, ee):
+        return any(ex.show(l) == "coder->sequence" for (l, r, op, n) in ex.writes(ee))
+    n = 0
+    for b, i, e in f.iter_elems():
+        for (l, r, op, node) in ex.writes(e):
+            ls = ex.strip(l)
+            if ls is None or ls.get("k") != "mem" or op not in ("-=", "+=") or not ex.show(l).startswith("coder->"):
+                continue
+            n += 1
+            ok = any(via(b, j, b.elems[j]) for j in range(i + 1, len(b.elems)) if b.elems[j] is not None)
+            path = None
+            if not ok:
+                ok, path = cfg.must_pass(f, cfg.succs(f, b.id), seekrets, via)
+            ck.ob("C13-SEEKSTATE", "%s@%d" % (ls["f"], n), ok, common.where(f, node),
+                  "`%s` is followed by a store to coder->sequence before any LZMA_SEEK_NEEDED" % ex.show(node) if ok else
+                  "file_info_decode(): after `%s` (line %s) LZMA_SEEK_NEEDED can be returned (lines %s) with coder->sequence "
+                  "unchanged: on re-entry the same state body runs again and applies the update twice" % (
+                      ex.show(node), ex.line(node), cfg.path_lines(f, path)), key="SEEKSTATE:%s" % ls["f"])
+    ck.floor("C13-SEEKSTATE", 8, "obligations")
+
+
 def run(ck):
     ck.explanation = (
         "Field-coverage, aggregate-update, effect-ordering (strong guarantee) and limit-guard rules over "
@@ -348,3 +423,6 @@ def run(ck):
     evaluate(ck, prog, "C13-LIMIT", LIMITS, floor=9)
     check_iter(ck, prog)
     check_seek(ck, prog)
+    check_seek_state(ck, prog)
+    prog_xz = common.program(ck, ("xz",), files=("/list.c",))
+    check_provenance(ck, prog, prog_xz)
